@@ -39,6 +39,24 @@ for n in new:
 out = {"api": a, "file": b, "new": new, "contents": enc(contents)}
 '''
 
+HIST = r"""
+import json, os, shutil
+from simple_ddl_parser import parse_from_file
+outs = []
+for step in req["steps"]:
+    if step["op"] == "rmtree":
+        shutil.rmtree(step["path"], ignore_errors=True)
+        outs.append({"rmtree": True})
+        continue
+    try:
+        r = parse_from_file(step["path"], dump=True, dump_path=step["dump_path"], output_mode=step["mode"])
+        f = os.path.join(step["dump_path"], step["stem"] + "_schema.json")
+        outs.append({"ok": enc(r), "written": enc(json.load(open(f))) if os.path.isfile(f) else None})
+    except Exception as e:
+        outs.append({"raise": type(e).__name__ + ": " + str(e)[:120]})
+out = outs
+"""
+
 
 def run(ctx, res):
     rng = ctx.rng
@@ -103,6 +121,43 @@ def run(ctx, res):
                     res.violation("fs", "dumped JSON differs from the returned result", request=info, oracle="pff")
                     continue
             if "ok" in b and py_of_impl(b["ok"]):
+                res.nontrivial.add(json.dumps(info, sort_keys=True))
+        # ---- histories in ONE process: the same target directory used again, also after it was removed in between -----------------
+        hreqs = []
+        for i in range(12 if ctx.thorough else 5):
+            d = os.path.join(root, "hist%d" % i)
+            os.makedirs(d)
+            dp = os.path.join(d, rng.choice(["out", "out/deep"]))
+            if rng.random() < 0.4:
+                os.makedirs(dp)
+            steps = []
+            for j in range(rng.randint(2, 4)):
+                nm = "f%d.sql" % j
+                open(os.path.join(d, nm), "w").write(rng.choice(texts))
+                steps.append({"op": "dump", "path": os.path.join(d, nm), "dump_path": dp, "stem": "f%d" % j, "mode": rng.choice(["sql", "hql"])})
+                if rng.random() < 0.6:
+                    steps.append({"op": "rmtree", "path": rng.choice([dp, os.path.join(d, "out")])})
+            hreqs.append({"op": "pyexec", "code": HIST, "steps": steps})
+        for rq, r in zip(hreqs, ctx.impl.map(hreqs)):
+            res.evaluations += 1
+            res.count("history")
+            info = {"steps": [{k: (os.path.relpath(v, root) if k in ("path", "dump_path") else v) for k, v in st.items()} for st in rq["steps"]]}
+            if "ok" not in r:
+                res.violation("fs", "harness failed: %r" % (r,), request=info, oracle="history")
+                continue
+            bad = None
+            for st, o in zip(rq["steps"], r["ok"]):
+                if st["op"] != "dump":
+                    continue
+                if "raise" in o:
+                    bad = "dump=True into %s raised %s" % (os.path.relpath(st["dump_path"], root), o["raise"])
+                elif o["written"] is None or json.loads(json.dumps(py_of_impl(o["written"]))) != json.loads(json.dumps(py_of_impl(o["ok"]))):
+                    bad = "dump=True did not write the returned result to %s_schema.json" % st["stem"]
+                if bad:
+                    break
+            if bad:
+                res.violation("fs", bad, request=info, oracle="history")
+            else:
                 res.nontrivial.add(json.dumps(info, sort_keys=True))
         # ---- the sdp command ---------------------------------------------------------------------------------------------
         env = ctx.scratch.env()
